@@ -8,8 +8,9 @@
        (`local_comp_graph`'s matrix formula, `Graph.local_complementation`'s pair loop) compute it;
     2. `row_reduction` preserves the solution space; the coefficient matrix of `_coeff_maker` encodes exactly the
        equations of Van den Nest–Dehaene–De Moor;
-    3. every `(True, Q)` of `is_lc_equivalent` on its deterministic paths: `Q` solves every equation and every 2×2 block
-       is invertible; for a solution space of dimension ≤ 4 a `False` means that *no* valid `Q` exists;
+    3. every `(True, Q)` of `is_lc_equivalent`, in both modes: `Q` solves every equation and every 2×2 block is
+       invertible; on the full-rank shortcut and for a solution space of dimension ≤ 4 a `False` means that *no* valid
+       `Q` exists (the echelon structure of `row_reduction`'s output is proved for that);
     4. the 2×2 → gate-name table of `local_clifford_ops` is complete and its gates act as the block;
     5. the checked path of `lc_check`: the returned gates, run by the verified tableau semantics on the graph state of A,
        give a valid tableau whose stabilizer group contains every generator of the graph state of B with sign +.
@@ -91,13 +92,14 @@ theorem row_reduction_preserves_solutions (x z : BMat) (v : Nat → Bool) (hr : 
 
 /-! ## 3. Decision -/
 
-/-- **soundness of `yes`** (deterministic search paths: all combinations for dimension ≤ 4, pair sums otherwise):
-    the returned `Q` has 4n entries, satisfies every equation of the system, and every block is invertible -/
+/-- **soundness of `yes`, both modes, every search path** (all combinations for dimension ≤ 4, pair sums, and the random
+    search for every value of the draws): the returned `Q` has 4n entries, satisfies every equation of the system, and
+    every block is invertible -/
 theorem yes_returns_a_valid_clifford (a b : BMat) (mode : Mode) (draws : List Bool) (out : EqOut) (q : List Bool)
-    (hn : 0 < a.r) (e : isLcEquivalent a b mode draws = .ok out) (hq : out.sol = some q) (hp : out.path ≠ "random") :
+    (hn : 0 < a.r) (e : isLcEquivalent a b mode draws = .ok out) (hq : out.sol = some q) :
     q.length = 4 * a.r ∧ (∀ j k, j < a.r → k < a.r → equation a.r a.f b.f (vget q) j k = false) ∧
     isValidClifford a.r q = true := by
-  obtain ⟨h1, h2, h3⟩ := isLcEquivalent_sound a b mode draws out q hn e hq hp
+  obtain ⟨h1, h2, h3⟩ := isLcEquivalent_sound_all a b mode draws out q hn e hq
   exact ⟨h1, (solF_coeff_iff a.r a.f b.f _).mp h2, h3⟩
 
 /-- **for a solution space of dimension ≤ 4 the search is exhaustive**: a `no` on that path means that no assignment at
@@ -107,6 +109,22 @@ theorem no_is_exhaustive_for_small_dimension (a b : BMat) (mode : Mode) (draws :
     (hp : out.path = "all-combinations") (v : List Bool)
     (hv : ∀ j k, j < a.r → k < a.r → equation a.r a.f b.f (vget v) j k = false) : isValidClifford a.r v = false :=
   isLcEquivalent_no_small a b mode draws out hn e hsol hp v ((solF_coeff_iff a.r a.f b.f _).mpr hv)
+
+/-- **the full-rank shortcut is right** ("those two graph states are not LC equivalent for sure"): when the reduced
+    coefficient matrix has rank `4 n` the zero vector is the only solution, so no valid `Q` exists -/
+theorem no_is_right_on_full_rank (a b : BMat) (mode : Mode) (draws : List Bool) (out : EqOut)
+    (hn : 0 < a.r) (e : isLcEquivalent a b mode draws = .ok out) (hp : out.path = "full-rank") (v : List Bool)
+    (hv : ∀ j k, j < a.r → k < a.r → equation a.r a.f b.f (vget v) j k = false) : isValidClifford a.r v = false :=
+  isLcEquivalent_no_fullrank a b mode draws out hn e hp v ((solF_coeff_iff a.r a.f b.f _).mpr hv)
+
+/-- **one step of the cited theorem, proved**: a local complementation is realised by an explicit local Clifford — the
+    vector with block `[[1,0],[1,1]]` at `v`, `[[1,1],[0,1]]` at the neighbours of `v` and the identity elsewhere solves every
+    equation of the system for `(A, localComp A v)` and has invertible blocks (so the equations are satisfiable by a valid
+    `Q` for every pair one complementation apart, for every n) -/
+theorem one_local_complementation_has_a_valid_clifford (n : Nat) (A : Adj) (v : Nat) (hv : v < n) (hA : Simple n A) :
+    (∀ j k, j < n → k < n → equation n A (localComp A v) (lcQ A v) j k = false) ∧
+    isValidClifford n ((List.range (4 * n)).map (lcQ A v)) = true :=
+  ⟨fun j k hj hk => lcQ_solves n A v hv hA j k hj hk, lcQ_valid n A v hv hA⟩
 
 /-- two graphs are in the same LC orbit -/
 def SameOrbit (n : Nat) (A B : Adj) : Prop := ∃ vs : List Nat, (∀ v ∈ vs, v < n) ∧ EqAdj n (applySeq A vs) B
@@ -158,17 +176,19 @@ theorem never_a_false_no_refuted : ¬ never_a_false_no_statement := by
     simp at this
   · simp at e
 
-/-- what *is* proved of the decision property (the missing parts: `yes ⇒ same orbit` and `no ⇒ different orbit` need Van
-    den Nest's theorem, which is cited; `no` on the pair-sum path is incomplete — D14; the random path's `Q` is validated
-    by the direct oracle on every run, its soundness is `random_yes_is_sound` when present) -/
+/-- what *is* proved of the decision property: every `yes` carries a valid `Q`; every `no` taken on the full-rank shortcut
+    or after the exhaustive search (dimension ≤ 4) means that no valid `Q` exists.  Missing: `valid Q ⇔ same orbit` is Van
+    den Nest's theorem, cited; a `no` on the pair-sum / random paths (dimension ≥ 5) is incomplete — refuted above, D14 -/
 theorem decides_lc_equivalence_partial (a b : BMat) (mode : Mode) (draws : List Bool) (out : EqOut)
-    (hn : 0 < a.r) (e : isLcEquivalent a b mode draws = .ok out) (hp : out.path ≠ "random") :
+    (hn : 0 < a.r) (e : isLcEquivalent a b mode draws = .ok out) :
     (∀ q, out.sol = some q →
       (∀ j k, j < a.r → k < a.r → equation a.r a.f b.f (vget q) j k = false) ∧ isValidClifford a.r q = true) ∧
-    (out.sol = none → out.path = "all-combinations" → ∀ v : List Bool,
+    (out.sol = none → (out.path = "all-combinations" ∨ out.path = "full-rank") → ∀ v : List Bool,
       (∀ j k, j < a.r → k < a.r → equation a.r a.f b.f (vget v) j k = false) → isValidClifford a.r v = false) :=
-  ⟨fun q hq => (yes_returns_a_valid_clifford a b mode draws out q hn e hq hp).2,
-   fun hs hpa v hv => no_is_exhaustive_for_small_dimension a b mode draws out hn e hs hpa v hv⟩
+  ⟨fun q hq => (yes_returns_a_valid_clifford a b mode draws out q hn e hq).2,
+   fun hs hpa v hv => hpa.elim
+     (fun h => no_is_exhaustive_for_small_dimension a b mode draws out hn e hs h v hv)
+     (fun h => no_is_right_on_full_rank a b mode draws out hn e h v hv)⟩
 
 def K3 : BMat := BMat.ofAdj 3 (fun i j => decide (i ≠ j))
 def S3 : BMat := BMat.ofAdj 3 (fun i j => decide (i ≠ j) && (decide (i = 0) || decide (j = 0)))
@@ -207,6 +227,19 @@ theorem lc_check_gates_map_the_state (a b : BMat) (gates : List (String × Nat))
     ∃ t, runGates (graphTab a.r a.f) gates = .ok t ∧ t.n = a.r ∧ t.Valid ∧
       ∀ q, q < a.r → InSpan t.n t.n t.stab (graphGen b.f q) :=
   lcCheck_sound a b gates hA e
+
+/-- what the model's `lc_check(validate=True)` answers, as data -/
+def checkAnswer (a b : BMat) : Option (Bool × List (String × Nat)) :=
+  match lcCheck a b true with
+  | .ok r => some r
+  | .error _ => none
+
+set_option maxRecDepth 100000 in
+/-- non-vacuity of the hypothesis of `lc_check_gates_map_the_state` (kernel-checked): for the triangle and the 3-star the
+    checked path succeeds, with exactly the gate list the implementation returns -/
+theorem lc_check_triangle_star :
+    checkAnswer K3 S3 = some (true, [("P_dag", 0), ("H", 0), ("H", 1), ("P", 1), ("P", 2), ("Z", 2)]) := by
+  decide +kernel
 
 /-- the constructive part of the property as worded, for the vertex sequence -/
 def lc_sequence_statement : Prop :=
